@@ -556,6 +556,31 @@ impl<'a> Session<'a> {
         stats.histories += 1;
         Session { sut: Some(sut), def: None, out, ora, hist, n_ids: 0, dead: false, generic_strats, stats }
     }
+    /// a type the resolver's table does not contain must be refused by every entry point that consults the resolver
+    /// (never answered with the host's own size / alignment): `unreg <k>`
+    fn unregistered(&mut self, k: usize) {
+        if self.dead || self.sut.is_none() { return; }
+        let line = format!("unreg {}", k);
+        let name = format!("zz_unreg_{}", self.n_ids);
+        let res = match self.sut.as_mut().unwrap() {
+            Sut::Native(b) => catch(|| match k % 4 {
+                0 => b.add_datum::<Vec<u32>, _>(name.clone()).map(usize_of),
+                1 => b.add_datum_allow_uninit::<[u32; 11], _>(name.clone()).map(usize_of),
+                2 => b.add_dynamic_datum(name.clone(), "Option<Option<u8>>").map(usize_of),
+                _ => b.add_datum_override::<(u8, u64), _>(name.clone(), DatumDefinitionOverride { type_name: None, size: None, align: Some(2), allow_uninit: None }).map(usize_of),
+            }),
+            Sut::Generic(_) => return,
+        };
+        match res {
+            Err(_) => self.out.emit(&line, "refused"),
+            Ok(r) => {
+                let what = match &r { Ok(id) => format!("accepted as datum {} with size/alignment {:?}", id, self.sut.as_ref().unwrap().layout(*id).map(|l| (l.1, l.2))), Err(e) => format!("answered with the error `{}` instead of refusing the type", e) };
+                self.out.emit(&line, "accepted");
+                self.ora.hit("C18", format!("entry point #{} given a type that is not in the resolver's table: {}", k % 4, what));
+                self.dead = true;
+            }
+        }
+    }
     fn add(&mut self, r: &AddReq) -> Option<usize> {
         if self.dead || self.sut.is_none() { return None; }
         self.stats.requests += 1;
@@ -680,6 +705,29 @@ impl<'a> Session<'a> {
         let sut = self.sut.take().unwrap();
         match catch(|| sut.build()) {
             Ok(d) => {
+                // the built definition says, for every datum of every variant, what the builder said when it placed it
+                let mut bad: Vec<String> = vec![];
+                for v in d.variants() {
+                    for id in v.data() {
+                        let k = usize_of(id);
+                        match d.get_datum_definition(id) {
+                            None => bad.push(format!("datum #{} of a variant has no definition in the built record definition", k)),
+                            Some(dd) => {
+                                if let Some(n) = self.ora.names.get(&k) {
+                                    if n != dd.name() { bad.push(format!("datum #{} was added as `{}`, the built definition calls it `{}`", k, n, dd.name())); }
+                                }
+                                if self.ora.native_layout {
+                                    if let Some(&(o, sz, al)) = self.ora.snapshots.get(&k) {
+                                        let now = (dd.details().offset(), dd.details().size(), dd.details().type_align());
+                                        if now != (o, sz, al) { bad.push(format!("datum #{} was placed at offset {} (size {}, alignment {}), the built definition says {:?}", k, o, sz, al, now)); }
+                                    }
+                                }
+                            }
+                        }
+                    }
+                }
+                bad.dedup();
+                for b in bad.into_iter().take(3) { self.ora.hit("C03", b); }
                 self.def = Some(d);
                 self.out.emit("build", "ok");
             }
@@ -969,6 +1017,7 @@ fn random_history(rng: &mut Rng, out: &mut Out, stats: &mut Stats, hist: usize) 
         }
         let big = rng.chance(1, 4);
         let nadd = if rng.chance(1, 10) { 0 } else { rng.below(if big { 13 } else { 5 }) };
+        if native && rng.chance(1, 12) { s.unregistered(rng.below(4)); }
         for _ in 0..nadd {
             // invalid requests & lookups sprinkled in
             let inv = if chaotic { 5 } else { 60 };
@@ -1134,6 +1183,7 @@ fn file_histories(path: &str, out: &mut Out, stats: &mut Stats) {
                 s.add(&r);
             }
             "rm" => { s.rm(toks[1].parse().unwrap()); }
+            "unreg" => { s.unregistered(toks[1].parse().unwrap()); }
             "close" => { s.close(Strat::parse(toks[1]).expect("strategy")); }
             "build" => s.build(),
             "maxsize" => { s.def_basic(); }
